@@ -10,9 +10,15 @@ import (
 // C02: operator table and evaluation order, on the real evaluateExpression.
 
 // vArbValue: a value of kind k (0 number over all doubles, 1 boolean, 2 string of 0..maxLen bytes).
+// vNumbersAsInts: numbers are integer-valued doubles in [-9, 9] instead of arbitrary doubles.
+var vNumbersAsInts bool
+
 func vArbValue(name string, k int, maxLen int) *variable.Value {
 	switch k {
 	case 0:
+		if vNumbersAsInts {
+			return variable.NewNumber(float64(vIntRange(name+".i", -9, 9)))
+		}
 		return variable.NewNumber(vFloat(name + ".n"))
 	case 1:
 		return variable.NewBoolean(vBool(name + ".b"))
@@ -130,6 +136,10 @@ func VHBinaryTable() {
 	op := vInt("op")
 	lk := vChoose("lk", 3)
 	rk := vChoose("rk", 3)
+	if lk == 0 && rk == 0 {
+		// numbers: arbitrary doubles, or integer-valued ones in [-9, 9] (for which % is decided exactly, see math.Mod)
+		vNumbersAsInts = vChoose("numbers.intvalued", 2) == 1
+	}
 	l := vArbValue("l", lk, 2)
 	r := vArbValue("r", rk, 2)
 	opc := op
@@ -192,6 +202,9 @@ type vProbeCaller struct {
 	fail    map[string]bool
 	kinds   map[string]int
 	firstArg []*variable.Value
+	args    [][]variable.Value // copies of the arguments each call received
+	rets    []*variable.Value  // what each call returned (nil if it failed)
+	quiet   bool               // answer 1 without consuming inputs (warm-up calls)
 }
 
 func (p *vProbeCaller) call(functionID string, args []*variable.Value) (*variable.Value, error) {
@@ -203,11 +216,36 @@ func (p *vProbeCaller) call(functionID string, args []*variable.Value) (*variabl
 	} else {
 		p.firstArg = append(p.firstArg, nil)
 	}
+	var cp []variable.Value
+	for _, a := range args {
+		cp = append(cp, vCopyValue(a))
+	}
+	p.args = append(p.args, cp)
+	if p.quiet {
+		p.rets = append(p.rets, nil)
+		return variable.NewNumber(1), nil
+	}
 	if vBool("probe." + functionID + "." + vItoa(idx) + ".fail") {
+		p.rets = append(p.rets, nil)
 		return nil, errWaitingForCommandCompletion("probe failure")
 	}
 	k := vChoose("probe."+functionID+"."+vItoa(idx)+".kind", 3)
-	return vArbValue("probe."+functionID+"."+vItoa(idx), k, 1), nil
+	ret := vArbValue("probe."+functionID+"."+vItoa(idx), k, 1)
+	p.rets = append(p.rets, ret)
+	return ret, nil
+}
+
+// argsAre: call idx received exactly these values, in order.
+func (p *vProbeCaller) argsAre(idx int, want ...*variable.Value) bool {
+	if idx >= len(p.args) || len(p.args[idx]) != len(want) {
+		return false
+	}
+	for i, w := range want {
+		if w == nil || !vValueEq(p.args[idx][i], *w) {
+			return false
+		}
+	}
+	return true
 }
 
 func vCallExpr(id string, args ...*tree.Expression) *tree.Expression {
@@ -220,27 +258,37 @@ func vCallExpr(id string, args ...*tree.Expression) *tree.Expression {
 func VHEvalOrder() {
 	ops := []int{tree.AndBinaryOperator, tree.OrBinaryOperator, tree.AdditionBinaryOperator, tree.EqualsBinaryOperator, tree.XorBinaryOperator}
 	op := ops[vChoose("op", len(ops))]
-	left := vCallExpr("L", vCallExpr("a"), vCallExpr("b"))
-	right := vCallExpr("R", vCallExpr("c"))
+	lit := func(x float64) *tree.Expression { return vValExpr(variable.NewNumber(x)) }
+	left := vCallExpr("L", vCallExpr("a", lit(1)), vCallExpr("b", lit(2), lit(3)))
+	right := vCallExpr("R", vCallExpr("c", lit(4)))
 	e := &tree.Expression{Operator: &op, LeftOperand: left, RightOperand: right}
-	p := &vProbeCaller{}
 	store := variable.NewInMemoryStorer()
+	// other calls were evaluated before in this process (any state evaluation keeps across calls exists by now)
+	if vChoose("warm", 2) == 1 {
+		evaluateExpression(vCallExpr("W", vCallExpr("w", lit(9), lit(9)), lit(8), lit(7)), store, &vProbeCaller{quiet: true})
+	}
+	p := &vProbeCaller{}
 	got, err := evaluateExpression(e, store, p)
 	vAssert(!(got == nil && err == nil), "order: value or error")
 	// reference order
 	n := len(p.log)
 	vAssert(n >= 1 && p.log[0] == "a", "first call is the first argument of the left operand")
+	vAssert(n >= 1 && p.argsAre(0, vNum(1)), "a call receives the values of its arguments (a)")
 	if n >= 2 {
 		vAssert(p.log[1] == "b", "second call is the second argument")
+		vAssert(p.argsAre(1, vNum(2), vNum(3)), "a call receives the values of its arguments (b)")
 	}
 	if n >= 3 {
 		vAssert(p.log[2] == "L" && p.argLens[2] == 2, "then the left call with both arguments")
+		vAssert(p.argsAre(2, p.rets[0], p.rets[1]), "a call receives the values its argument calls returned, in order")
 	}
 	if n >= 4 {
 		vAssert(p.log[3] == "c", "then the argument of the right operand")
+		vAssert(p.argsAre(3, vNum(4)), "a call receives the values of its arguments (c)")
 	}
 	if n >= 5 {
 		vAssert(p.log[4] == "R" && p.argLens[4] == 1, "then the right call")
+		vAssert(p.argsAre(4, p.rets[3]), "a call receives the value its argument call returned")
 	}
 	vAssert(n <= 5, "nothing is evaluated twice")
 	if n < 3 {
